@@ -63,7 +63,9 @@ def drop_default_ds(t):
     such a prefix is meaning-free and an assembler does not emit it."""
     def f(m):
         seg, inner = m.group(1), m.group(2)
-        stack = re.search(r'\b(ebp|esp|bp)\b', inner) is not None
+        # the default segment follows the BASE register (the first term when it carries no scale; bp in the 16-bit forms)
+        first = re.split(r'[+-]', inner)[0]
+        stack = first in ('ebp', 'esp') or re.search(r'\bbp\b', inner) is not None
         if (seg == 'ss') == stack:
             return '[' + inner + ']'
         return m.group(0)
@@ -130,6 +132,19 @@ def prefix_class(b):
         else:
             break
     return '+'.join(sorted(set(ps))) or 'none'
+
+
+def seg_detail(pc, b):
+    """prefix class in which an override naming ds or ss is told apart from the others: whether such an override is redundant or
+    meaningful depends on the base register, which is what assemblers and printers get wrong."""
+    if 'seg' not in pc:
+        return pc
+    for c in b:
+        if c in (0x36, 0x3e):
+            return pc.replace('seg', 'seg-%s' % ('ss' if c == 0x36 else 'ds'))
+        if c not in (0x26, 0x2e, 0x64, 0x65, 0x66, 0x67, 0xf0, 0xf2, 0xf3):
+            break
+    return pc
 
 
 def is_rel_branch(ref_text):
